@@ -4,15 +4,18 @@
 Unlike gen_idspace.py (which pins the shape of every method and extracts literals for the
 hand-written Model/IdSpace.v), this is a real translator for a small Python subset:
 
-  statements   x = e | a, b = e | x op= e | if/elif/else | return [e] | raise ... | docstrings
+  statements   x = e | a, b = e | x op= e | if/elif/else | return [e] | raise ... | docstrings |
+               for x in range(a, b[, step]): <body that updates local state> | lst.append(e) | lst[k] = e |
+               name = lambda: e (a thunk over the parameters) | for x in <iterable>: ... yield e  (generator
+               functions: nested loops ending in one yield)
   expressions  int/bool literals, names, field reads of dataclass objects, + - * // << >> & |,
                unary - and not, and/or, chained comparisons (< <= > >= == !=, `in [consts]`),
-               e1 if c else e2, tuples, range(a, b), calls of other translated methods (on self,
-               on a parameter of dataclass type, or static), dataclass constructors
-               (-> __post_init__), secrets.randbelow(n)
+               e1 if c else e2, tuples, lists, lst[k], range(a, b), generator expressions over ranges,
+               calls of other translated methods (on self, on a parameter of dataclass type, or static),
+               calls of thunks, dataclass constructors (-> __post_init__), secrets.randbelow(n)
 
 Meaning of the target terms: coq/Lib/PySem.v (monad M over the list of draws; raise = Exc).
-Proofs/IdSpaceTrEq.v proves that the hand-written model equals the translated functions, so a
+Proofs/IdSpaceTrEq.v, IdSpaceTrSplit.v and IdSpaceTrAllIds.v prove that the hand-written model equals the translated functions, so a
 rewrite of one of these methods that keeps its meaning keeps the proofs, and one that changes the
 meaning breaks `IdSpaceTrEq` (a proof obligation of C10 / C01 / C02 / C14).
 
@@ -22,12 +25,12 @@ import ast
 
 from gen_tables import extractor, parse, find_class, expect, ExtractError
 
-# methods translated, per class (the others — split, all_ids, strings, all_values — stay shape-pinned by gen_idspace.py)
+# methods translated, per class (the others — the string functions and all_values — stay shape-pinned by gen_idspace.py)
 METHODS = {
     "IDSubspace": ["__post_init__", "rand_byte", "rand_nonzero_byte", "all_byte_values", "all_nonzero_byte_values",
-                   "num_byte_values", "num_nonzero_byte_values", "contains_byte"],
+                   "num_byte_values", "num_nonzero_byte_values", "contains_byte", "split"],
     "IDSpace": ["__post_init__", "from_id", "num_nonzero_bits", "contains", "contains_and_in_subspace", "gen_random_id",
-                "subspace_size", "subspace_byte_offset", "subspace_byte_mask", "subspace_masked_range", "get_subspace_byte"],
+                "subspace_size", "subspace_byte_offset", "subspace_byte_mask", "subspace_masked_range", "get_subspace_byte", "all_ids"],
 }
 
 INT, BOOL, UNIT, RANGE = "int", "bool", "unit", "range"
@@ -39,6 +42,10 @@ def cls_t(name):
 
 def tup_t(ts):
     return ("tuple", tuple(ts))
+
+
+def list_t(t):
+    return ("list", t)
 
 
 class Tr:
@@ -81,6 +88,9 @@ class Tr:
             return tup_t([INT, INT])
         if s in ("Iterable[int]", "Iterator[int]", "range"):
             return RANGE
+        m = __import__("re").fullmatch(r"(?:List|list)\[(\w+)\]", s)
+        if m and (m.group(1) in self.fields or m.group(1) in METHODS):
+            return list_t(cls_t(m.group(1)))
         if s == "None":
             return UNIT
         raise ExtractError(f"{where}: annotation `{s}` is outside the translated subset")
@@ -99,6 +109,8 @@ class Tr:
             return f"({self.coq_type(a[1])} * {self.coq_type(b[1])})"
         if t[0] == "tuple":
             return "(" + " * ".join(self.coq_type(x) for x in t[1]) + ")"
+        if t[0] == "list":
+            return f"(list {self.coq_type(t[1])})"
         raise ExtractError(f"internal: type {t}")
 
     def eqb(self, t, a, b):
@@ -130,6 +142,9 @@ class Tr:
             params.append((p.arg, self.ann_type(p.annotation, f"{key[0]}.{key[1]}({p.arg})")))
         ret = self.ann_type(fn.returns, f"{key[0]}.{key[1]} return") if (fn.returns is not None or key[1] == "__post_init__") else None
         expect(ret is not None, f"{key[0]}.{key[1]}: no return annotation")
+        if any(isinstance(n, (ast.Yield, ast.YieldFrom)) for n in ast.walk(fn)):
+            expect(ret == RANGE, f"{key[0]}.{key[1]}: a generator function must be annotated Iterator[int]")
+            ret = list_t(INT)                      # a generator of ints = the list of the values it yields
         self.sigs[key] = (params, ret)
         return self.sigs[key]
 
@@ -250,9 +265,27 @@ class Tr:
             b, tb = self.expr(e.orelse, env, binds, me, False)
             expect(ta == tb, f"{where}: branches of different types")
             return f"(if {c} then {a} else {b})", ta
+        if isinstance(e, ast.List):
+            parts = [self.expr(x, env, binds, me, allow_calls) for x in e.elts]
+            if not parts:
+                return "[]", list_t(None)
+            expect(all(p[1] == parts[0][1] for p in parts), f"{where}: list of mixed types")
+            return "[" + "; ".join(p[0] for p in parts) + "]", list_t(parts[0][1])
+        if isinstance(e, ast.Subscript):
+            expect(allow_calls, f"{where}: indexing in a conditionally evaluated position is outside the subset")
+            base, bt = self.expr(e.value, env, binds, me, allow_calls)
+            expect(isinstance(bt, tuple) and bt[0] == "list" and bt[1] is not None, f"{where}: indexing a value of type {bt}")
+            expect(isinstance(e.slice, ast.Constant) and isinstance(e.slice.value, int) and e.slice.value >= 0, f"{where}: only constant non-negative indices")
+            v = self.tmp()
+            binds.append((v, f"py_getitem {base} {e.slice.value}"))       # IndexError = Exc
+            return v, bt[1]
         if isinstance(e, ast.Tuple):
             parts = [self.expr(x, env, binds, me, allow_calls) for x in e.elts]
             return "(" + ", ".join(p[0] for p in parts) + ")", tup_t([p[1] for p in parts])
+        if isinstance(e, ast.Call) and isinstance(e.func, ast.Name) and e.func.id in env and isinstance(env[e.func.id][1], tuple) and env[e.func.id][1][0] == "thunk":
+            # calling a `name = lambda: expr` thunk: the body is evaluated here (its free variables are parameters only)
+            expect(not e.args and not e.keywords, f"{where}: thunk called with arguments")
+            return self.iterable(env[e.func.id][1][1], env, binds, me)
         if isinstance(e, ast.Call):
             expect(not e.keywords, f"{where}: keyword arguments")
             f = e.func
@@ -314,6 +347,51 @@ class Tr:
                 return v, ret
         raise ExtractError(f"{where}: expression outside the translated subset")
 
+    def iterable(self, e, env, binds, me):
+        """an expression used as something to iterate over -> (Coq term of type list Z, ('list', INT))"""
+        where = f"{me[0]}.{me[1]}: `{ast.unparse(e)[:60]}`"
+        if isinstance(e, ast.GeneratorExp):
+            # (elt for x in I1 for y in I2 ...)  with pure iterables after the first
+            expect(all(not g.ifs and not g.is_async and isinstance(g.target, ast.Name) for g in e.generators), f"{where}: generator shape")
+            env2 = dict(env)
+            its = []
+            for i, g in enumerate(e.generators):
+                b2 = binds if i == 0 else []
+                t, _ = self.iterable(g.iter, env2, b2, me)
+                expect(i == 0 or not b2, f"{where}: a call in an inner iterable of a generator expression is outside the subset")
+                its.append((self.var(g.target.id), t))
+                env2[g.target.id] = (self.var(g.target.id), INT)
+            b3 = []
+            elt, et = self.expr(e.elt, env2, b3, me, False)
+            expect(not b3, f"{where}: call in the element of a generator expression")
+            term = f"[{self.as_int(elt, et, where)}]"
+            for i, (v, t) in enumerate(reversed(its)):
+                if i == 0:
+                    term = f"(map (fun {v} => {self.as_int(elt, et, where)}) {t})"
+                else:
+                    term = f"(flat_map (fun {v} => {term}) {t})"
+            return term, list_t(INT)
+        t, tt = self.expr(e, env, binds, me)
+        if tt == RANGE:
+            return f"(py_range_list (fst {t}) (snd {t}))", list_t(INT)
+        expect(tt == list_t(INT), f"{where}: iterating over a value of type {tt}")
+        return t, tt
+
+    def loops(self, s, env, me, ind):
+        """`for x in I: (nested for | yield e)` of a generator function -> monadic term of type M (list Z)"""
+        where = f"{me[0]}.{me[1]}: `{ast.unparse(s)[:60]}`"
+        if isinstance(s, ast.Expr) and isinstance(s.value, ast.Yield):
+            binds = []
+            t, tt = self.expr(s.value.value, env, binds, me)
+            return self.wrap(binds, f"{ind}ret [{self.as_int(t, tt, where)}]", ind)
+        expect(isinstance(s, ast.For) and not s.orelse and isinstance(s.target, ast.Name) and len(s.body) == 1, f"{where}: only `for x in I:` with a single nested for / yield")
+        binds = []
+        it, _ = self.iterable(s.iter, env, binds, me)
+        env2 = dict(env)
+        env2[s.target.id] = (self.var(s.target.id), INT)
+        inner = self.loops(s.body[0], env2, me, ind + "  ")
+        return self.wrap(binds, f"{ind}py_for_list {it} (fun {self.var(s.target.id)} =>\n{inner})", ind)
+
     # ------------------------------------------------------------------ statements
     @staticmethod
     def wrap(binds, body, ind):
@@ -342,9 +420,120 @@ class Tr:
             t, tt = self.expr(s.value, env, binds, me)
             if ret == INT:
                 t = self.as_int(t, tt, where)
-            else:
-                expect(tt == ret, f"{where}: returns {tt}, declared {ret}")
+            elif ret is not None:
+                expect(tt == ret or (isinstance(tt, tuple) and tt[0] == "list" and tt[1] is None and isinstance(ret, tuple) and ret[0] == "list"), f"{where}: returns {tt}, declared {ret}")
             return self.wrap(binds, f"{ind}ret {t}", ind)
+        if isinstance(s, ast.Expr) and isinstance(s.value, ast.Call) and isinstance(s.value.func, ast.Attribute) and s.value.func.attr == "append":
+            # lst.append(e)  ==  lst = lst + [e]
+            tgt = s.value.func.value
+            expect(isinstance(tgt, ast.Name) and tgt.id in env and len(s.value.args) == 1 and not s.value.keywords, f"{where}: append")
+            lv, lt = env[tgt.id]
+            expect(isinstance(lt, tuple) and lt[0] == "list", f"{where}: append on a value of type {lt}")
+            binds = []
+            t, tt = self.expr(s.value.args[0], env, binds, me)
+            expect(lt[1] is None or lt[1] == tt, f"{where}: append of a {tt} to a list of {lt[1]}")
+            env2 = dict(env)
+            env2[tgt.id] = (self.var(tgt.id), list_t(tt))
+            line = f"{ind}let {self.var(tgt.id)} := ({lv} ++ [{t}]) in\n"
+            return self.wrap(binds, line + self.stmts(rest, env2, me, ret, ind), ind)
+        if isinstance(s, ast.Assign) and len(s.targets) == 1 and isinstance(s.targets[0], ast.Subscript):
+            tg = s.targets[0]
+            expect(isinstance(tg.value, ast.Name) and tg.value.id in env and isinstance(tg.slice, ast.Constant) and isinstance(tg.slice.value, int) and tg.slice.value >= 0,
+                   f"{where}: only `name[const] = e`")
+            lv, lt = env[tg.value.id]
+            expect(isinstance(lt, tuple) and lt[0] == "list" and lt[1] is not None, f"{where}: item assignment on a value of type {lt}")
+            binds = []
+            t, tt = self.expr(s.value, env, binds, me)
+            expect(tt == lt[1], f"{where}: item of type {tt} into a list of {lt[1]}")
+            v = self.var(tg.value.id)
+            binds.append((v, f"py_setitem {lv} {tg.slice.value} {t}"))    # IndexError = Exc
+            return self.wrap(binds, self.stmts(rest, env, me, ret, ind), ind)
+        if isinstance(s, ast.For) and any(isinstance(n, ast.Yield) for n in ast.walk(s)):
+            expect(not rest, f"{where}: statements after the generating loop are outside the subset")
+            expect(ret == list_t(INT), f"{where}: yield in a function that is not a generator of ints")
+            return self.loops(s, env, me, ind)
+        if isinstance(s, ast.For):
+            # for x in range(a, b[, step]): body   — the variables the body assigns are the loop state
+            expect(not s.orelse and isinstance(s.target, ast.Name), f"{where}: for-else / tuple target")
+            it = s.iter
+            expect(isinstance(it, ast.Call) and isinstance(it.func, ast.Name) and it.func.id == "range" and 2 <= len(it.args) <= 3 and not it.keywords, f"{where}: only `for x in range(a, b[, step])`")
+            binds = []
+            args = []
+            for a in it.args:
+                t, tt = self.expr(a, env, binds, me)
+                args.append(self.as_int(t, tt, where))
+            if len(args) == 2:
+                args.append("1")
+            assigned = []
+            for n in ast.walk(ast.Module(body=s.body, type_ignores=[])):
+                if isinstance(n, ast.Assign):
+                    for tg in n.targets:
+                        for x in ast.walk(tg):
+                            if isinstance(x, ast.Name) and x.id not in assigned:
+                                assigned.append(x.id)
+                elif isinstance(n, ast.AugAssign) and isinstance(n.target, ast.Name) and n.target.id not in assigned:
+                    assigned.append(n.target.id)
+                elif isinstance(n, ast.Call) and isinstance(n.func, ast.Attribute) and n.func.attr == "append" and isinstance(n.func.value, ast.Name) and n.func.value.id not in assigned:
+                    assigned.append(n.func.value.id)
+                expect(not isinstance(n, (ast.Return, ast.Break, ast.Continue, ast.For, ast.While)), f"{where}: return/break/continue/nested loop in a loop body is outside the subset")
+            expect(s.target.id not in assigned, f"{where}: the loop variable is assigned in the body")
+            state = [v for v in assigned if v in env]
+            expect(state == assigned, f"{where}: the loop body introduces variables {sorted(set(assigned) - set(state))} (outside the subset)")
+            expect(len(state) >= 1, f"{where}: loop without state")
+            # element type of an empty list literal becomes known in the body: translate the body once to learn it
+            def body_term(env_in):
+                env_b = dict(env_in)
+                env_b[s.target.id] = (self.var(s.target.id), INT)
+                marker = ast.Return(value=ast.Tuple(elts=[ast.Name(id=v, ctx=ast.Load()) for v in state], ctx=ast.Load()) if len(state) > 1 else ast.Name(id=state[0], ctx=ast.Load()))
+                holder = {}
+                saved_expr = self.expr
+
+                def spy(e, envx, bindsx, mex, allow_calls=True):
+                    r = saved_expr(e, envx, bindsx, mex, allow_calls)
+                    if e is marker.value:
+                        holder["t"] = r[1]
+                    return r
+                self.expr = spy
+                try:
+                    txt = self.stmts(list(s.body) + [marker], env_b, me, None, ind + "    ")
+                finally:
+                    self.expr = saved_expr
+                return txt, holder.get("t")
+            txt, st_t = body_term(env)
+            if len(state) == 1 and isinstance(st_t, tuple) and st_t[0] == "list" and env[state[0]][1] == list_t(None):
+                env = dict(env)
+                env[state[0]] = (env[state[0]][0], st_t)
+                txt, st_t = body_term(env)
+            pat = "(" + ", ".join(self.var(v) for v in state) + ")" if len(state) > 1 else self.var(state[0])
+            init = "(" + ", ".join(env[v][0] for v in state) + ")" if len(state) > 1 else env[state[0]][0]
+            loop = f"py_for_range {args[0]} {args[1]} {args[2]} (fun {self.var(s.target.id)} {'st_' if len(state) > 1 else pat} =>\n"
+            if len(state) > 1:
+                loop += f"{ind}    let '{pat} := st_ in\n"
+            loop += txt + ") " + init
+            env2 = dict(env)
+            if len(state) == 1:
+                env2[state[0]] = (self.var(state[0]), st_t)
+                binds.append((self.var(state[0]), loop))
+            else:
+                for v, vt in zip(state, st_t[1]):
+                    env2[v] = (self.var(v), vt)
+                binds.append(("'" + pat, loop))
+            return self.wrap(binds, self.stmts(rest, env2, me, ret, ind), ind)
+        if isinstance(s, ast.Assign) and len(s.targets) == 1 and isinstance(s.targets[0], ast.Name) and isinstance(s.value, ast.Lambda):
+            lam = s.value
+            a = lam.args
+            expect(not (a.args or a.vararg or a.kwarg or a.kwonlyargs or a.posonlyargs), f"{where}: only `lambda: expr`")
+            params = {p for p, _ in self.sig(me)[0]}
+            free = {n.id for n in ast.walk(lam.body) if isinstance(n, ast.Name) and isinstance(n.ctx, ast.Load)}
+            bound = {g.target.id for n in ast.walk(lam.body) if isinstance(n, ast.GeneratorExp) for g in n.generators if isinstance(g.target, ast.Name)}
+            expect(free - bound - {"range"} <= params, f"{where}: the lambda refers to local variables {sorted(free - bound - params)} (outside the subset)")
+            env2 = dict(env)
+            env2[s.targets[0].id] = (None, ("thunk", lam.body))
+            return self.stmts(rest, env2, me, ret, ind)
+        if isinstance(s, ast.For) and any(isinstance(n, ast.Yield) for n in ast.walk(s)):
+            expect(not rest, f"{where}: statements after the generating loop are outside the subset")
+            expect(ret == list_t(INT), f"{where}: yield in a function that is not a generator of ints")
+            return self.loops(s, env, me, ind)
         if isinstance(s, (ast.Assign, ast.AnnAssign, ast.AugAssign)):
             binds = []
             if isinstance(s, ast.AugAssign):
